@@ -2012,3 +2012,86 @@ Proof.
     apply Z.eqb_eq in H. subst q. destruct (e_wprog _ _ _ R t (conj Ht L)) as [[x Hx]|A]; [|exact A].
     exfalso. unfold tpushes in Hx. rewrite Hc, Hf in Hx. destruct Hx.
 Qed.
+
+(** ** a spawning command is never in progress between two steps *)
+Definition SpInv (st : wstate) : Prop := forall u c, tcur (thr st u) = Some c -> nsp c.
+
+Lemma settle_tcur : forall st t ev done st' ev',
+  settle st t ev done = (st', ev') ->
+  (forall u, u <> t -> thr st' u = thr st u) /\
+  (tcur (thr st' t) = None \/ (done = None /\ tcur (thr st' t) = tcur (thr st t))).
+Proof.
+  intros st t ev done st' ev' H. destruct (settle_Y _ _ _ _ _ _ H) as [_ O]. split; [exact O|]. unfold settle in H.
+  destruct (norm (2 * (cont_size (tcont (th st t)) + length (tacc (th st t))) + 2) (sl st) (tacc (th st t)) (tcont (th st t)) ev)
+    as [[[s1 acc1] k1] ev1] eqn:En.
+  cbn zeta in H.
+  set (st1 := set_sl (upd_th st t (set_tacc (set_tcont (th st t) k1) acc1)) s1) in *.
+  assert (C1 : tcur (thr st1 t) = tcur (thr st t)) by (unfold st1; cbn -[Nat.eqb]; unfold updN, th; rewrite Nat.eqb_refl; reflexivity).
+  clearbody st1.
+  match type of H with (let '(st2, ev2) := ?E in _) = _ => destruct E as [st2 ev2] eqn:E2 end.
+  assert (S2 : tcur (thr st2 t) = None \/ (done = None /\ tcur (thr st2 t) = tcur (thr st t))).
+  { destruct done as [v|].
+    - inversion E2; subst. left. cbn. unfold updN, th. rewrite Nat.eqb_refl. reflexivity.
+    - destruct k1.
+      + destruct (tcur (th st1 t)) as [c|] eqn:Ec; inversion E2; subst.
+        * left. destruct c; cbn; unfold updN, th; rewrite Nat.eqb_refl; reflexivity.
+        * right. split; [reflexivity|exact C1].
+      + inversion E2; subst. right. split; [reflexivity|exact C1]. }
+  destruct (tcont (th st2 t)) eqn:Ec; [|inversion H; subst; exact S2].
+  destruct (tscript (th st2 t)) eqn:Es; [|inversion H; subst; exact S2].
+  destruct (tcur (th st2 t)) eqn:Eu; [inversion H; subst; exact S2|].
+  destruct (tfinal (th st2 t)) eqn:Ef; inversion H; subst; [exact S2|].
+  left. cbn. unfold updN, th. rewrite Nat.eqb_refl. cbn. exact Eu.
+Qed.
+
+Lemma begin_cmd_sp : forall st t c st' ev done, begin_cmd st t c = (st', ev, done) -> ~ nsp c -> done <> None.
+Proof.
+  intros st t c st' ev done H Hn. destruct c; cbn in Hn; try (exfalso; apply Hn; exact Logic.I); cbn [begin_cmd] in H; destr_all H; inversion H; discriminate.
+Qed.
+
+Theorem wstep_Sp : forall st t st' ev, pristine st -> SpInv st -> wstep st t = (st', ev) -> SpInv st'.
+Proof.
+  intros st t st' ev P Sp H. unfold wstep in H.
+  destruct (enabled st t) eqn:En; cbn [negb] in H; [|inversion H; subst; exact Sp].
+  assert (Ht : (t < nthr st)%nat).
+  { unfold enabled in En. apply andb_true_iff in En. destruct En as [En _]. apply Nat.ltb_lt in En. exact En. }
+  assert (Pt : pristine (tick st t)) by (unfold tick; prist st t).
+  assert (Spt : SpInv (tick st t)).
+  { intros u c. unfold tick. cbn -[Nat.eqb]. unfold updN, th. destruct (Nat.eqb_spec u t); subst; cbn; apply Sp. }
+  assert (Htt : (t < nthr (tick st t))%nat) by exact Ht.
+  set (s0 := tick st t) in *. clearbody s0. clear En.
+  assert (Fin : forall s ev0 done, (forall u c, u <> t -> tcur (thr s u) = Some c -> nsp c) ->
+                  (done = None -> forall c, tcur (thr s t) = Some c -> nsp c) ->
+                  settle s t ev0 done = (st', ev) -> SpInv st').
+  { intros s ev0 done Ho Hd Hs. destruct (settle_tcur _ _ _ _ _ _ Hs) as [B A]. intros u c Hu.
+    destruct (Nat.eq_dec u t) as [->|Ne]; [|rewrite (B u Ne) in Hu; apply (Ho u c Ne Hu)].
+    destruct A as [A|[A1 A2]]; [rewrite A in Hu; discriminate Hu|]. rewrite A2 in Hu. apply (Hd A1 c Hu). }
+  destruct (tstarted (th s0 t)) eqn:Es0; cbn [negb] in H.
+  - destruct (tcont (th s0 t)) as [|i r] eqn:Ec.
+    + destruct (tscript (th s0 t)) as [|c0 cs] eqn:Es; [inversion H; subst; exact Sp|].
+      match type of H with context [begin_cmd ?S0 t ?cc] =>
+        destruct (begin_cmd S0 t cc) as [[st2 ev0] done] eqn:Eb; set (s1 := S0) in * end.
+      assert (P1 : pristine s1) by (unfold s1; prist s0 t).
+      destruct (begin_cmd_sum s1 t c0 st2 ev0 done P1 Htt Eb) as [_ [Hcu [Ho [Hn _]]]].
+      apply (Fin st2 (ECmd c0 :: ev0) done); [| |exact H].
+      * intros u c Hu. change (nthr s1) with (nthr s0) in *.
+        destruct (Nat.eq_dec u (nthr s0)) as [->|Hn0].
+        -- destruct Hn as [Hn|[_ [Hn1 _]]]; [|intro E; rewrite Hn1 in E; discriminate E].
+           rewrite (Ho _ Hu (or_intror Hn)). unfold s1. cbn -[Nat.eqb]. unfold updN, th.
+           destruct (Nat.eqb_spec (nthr s0) t); [contradiction|]. apply Spt.
+        -- rewrite (Ho u Hu (or_introl Hn0)). unfold s1. cbn -[Nat.eqb]. unfold updN, th.
+           destruct (Nat.eqb_spec u t); [contradiction|]. apply Spt.
+      * intros D c. rewrite Hcu. unfold s1. cbn -[Nat.eqb]. unfold updN, th. rewrite Nat.eqb_refl. cbn. intro E. inversion E; subst c.
+        destruct c0; try exact Logic.I; exfalso; (apply (begin_cmd_sp _ _ _ _ _ _ Eb); [intro Y; exact Y|exact D]).
+    + destruct (exec_instr s0 t i r) as [st1 ev1] eqn:Ee.
+      destruct (exec_instr_tf _ _ _ _ _ _ Ee) as [_ [Hf Ho]].
+      apply (Fin st1 ev1 None); [| |exact H].
+      * intros u c Hu. destruct (Hf u) as [A _]. rewrite A. apply Spt.
+      * intros _ c. destruct (Hf t) as [A _]. rewrite A. apply Spt.
+  - apply (Fin (upd_th s0 t (set_tstarted (th s0 t) true)) [EStart] None); [| |exact H].
+    + intros u c Hu. cbn -[Nat.eqb]. unfold updN, th. destruct (Nat.eqb_spec u t); [contradiction|]. apply Spt.
+    + intros _ c. cbn -[Nat.eqb]. unfold updN, th. rewrite Nat.eqb_refl. cbn. apply Spt.
+Qed.
+
+Lemma Sp_init : forall scr, SpInv (winit scr).
+Proof. intros scr u c H. cbn in H. discriminate H. Qed.
